@@ -48,6 +48,30 @@ func rowWidth(s string) int {
 
 // matchRow tells whether the text of a screen row shows the given line:
 // complete when it fits, otherwise cut with the ellipsis ".." at either end.
+// Lines may contain the single-width letter "é": for the exact comparison it
+// is replaced by a one-byte stand-in on both sides (screen and state), so that
+// byte offsets are cell offsets.
+func fold(s string) string { return strings.ReplaceAll(s, "é", "#") }
+
+func foldStatus(st *Status) *Status {
+	c := *st
+	c.Query = fold(st.Query)
+	if st.Current != nil {
+		cur := *st.Current
+		cur.Text = fold(cur.Text)
+		c.Current = &cur
+	}
+	c.Matches = make([]StatusItem, len(st.Matches))
+	for i, m := range st.Matches {
+		c.Matches[i] = StatusItem{m.Index, fold(m.Text)}
+	}
+	c.Selected = make([]StatusItem, len(st.Selected))
+	for i, m := range st.Selected {
+		c.Selected[i] = StatusItem{m.Index, fold(m.Text)}
+	}
+	return &c
+}
+
 func matchRow(text string, line string, avail int) (ok bool, truncated bool) {
 	if text == strings.TrimRight(line, " ") {
 		return len(line) <= avail, false
@@ -72,7 +96,17 @@ func matchRow(text string, line string, avail int) (ok bool, truncated bool) {
 	return strings.Contains(line, core) || strings.Contains(line, strings.TrimRight(core, " ")), true
 }
 
-func checkScreen(rows []string, st *Status, cfg screenCfg) (string, bool) {
+func checkScreen(rawRows []string, rawSt *Status, cfg screenCfg) (string, bool) {
+	rows := make([]string, len(rawRows))
+	for i, r := range rawRows {
+		rows[i] = fold(r)
+	}
+	st := foldStatus(rawSt)
+	hl := make([]string, len(cfg.headerLines))
+	for i, h := range cfg.headerLines {
+		hl[i] = fold(h)
+	}
+	cfg.headerLines = hl
 	// drop the empty rows tmux appends below the used area? keep all: fzf uses the full pane
 	for len(rows) > cfg.height {
 		rows = rows[:len(rows)-1]
@@ -318,9 +352,20 @@ func checkInfo(m []string, st *Status, cfg screenCfg) string {
 	return ""
 }
 
+// uniqueTokens builds the body of a long line from short tokens that occur in
+// no other line, so that any visible piece of the line identifies it (needed
+// when the row is scrolled horizontally to the match).
+func uniqueTokens(i, k int, accent string) string {
+	var sb strings.Builder
+	for j := 0; j < k; j++ {
+		fmt.Fprintf(&sb, "a%db%d%s ", i, j, accent)
+	}
+	return sb.String()
+}
+
 func c15Session(t *rapid.T) {
 	n := rapid.SampledFrom([]int{0, 1, 3, 8, 25, 70}).Draw(t, "nlines")
-	kinds := []string{"short", "short", "medium", "long", "spaces"}
+	kinds := []string{"short", "short", "medium", "long", "spaces", "accent-medium", "accent-long"}
 	lines := make([]string, n)
 	for i := range lines {
 		switch rapid.SampledFrom(kinds).Draw(t, "kind") {
@@ -329,7 +374,11 @@ func c15Session(t *rapid.T) {
 		case "medium":
 			lines[i] = fmt.Sprintf("item-%03d medium length text b-%d a", i, i*7)
 		case "long":
-			lines[i] = fmt.Sprintf("item-%03d %s end-%d", i, strings.Repeat("long text ab ", rapid.IntRange(4, 12).Draw(t, "rep")), i)
+			lines[i] = fmt.Sprintf("item-%03d %s end-%d", i, uniqueTokens(i, rapid.IntRange(8, 24).Draw(t, "rep"), ""), i)
+		case "accent-medium":
+			lines[i] = fmt.Sprintf("item-%03d café médium téxt b-%d a", i, i*7)
+		case "accent-long":
+			lines[i] = fmt.Sprintf("item-%03d %s énd-%d", i, uniqueTokens(i, rapid.IntRange(8, 24).Draw(t, "rep"), "é"), i)
 		default:
 			lines[i] = fmt.Sprintf("item-%03d   spaced   out   a  %d", i, i)
 		}
@@ -341,7 +390,10 @@ func c15Session(t *rapid.T) {
 	cfg.info = rapid.SampledFrom([]string{"default", "default", "inline", "hidden", "inline-right", "right"}).Draw(t, "info")
 	cfg.multi = rapid.Bool().Draw(t, "multi")
 	cfg.prompt = "Q> "
-	args := []string{"--no-mouse", "--no-scrollbar", "--no-unicode", "--pointer", ">", "--marker", "*", "--ellipsis", "..", "--prompt", cfg.prompt, "--layout=" + cfg.layout, "--info=" + cfg.info, "--no-hscroll", "--color=bw"}
+	args := []string{"--no-mouse", "--no-scrollbar", "--no-unicode", "--pointer", ">", "--marker", "*", "--ellipsis", "..", "--prompt", cfg.prompt, "--layout=" + cfg.layout, "--info=" + cfg.info, "--color=bw"}
+	if rapid.IntRange(0, 2).Draw(t, "hscroll") != 0 {
+		args = append(args, "--no-hscroll")
+	}
 	if cfg.multi {
 		args = append(args, "--multi")
 	}
@@ -416,6 +468,21 @@ func c15Session(t *rapid.T) {
 			}
 			t.Fatalf("no stable state after %s (alive=%v)\nhistory:\n  %s", step, s.Alive(), strings.Join(history, "\n  "))
 		}
+		// the lines the state reports are the input lines themselves (drawing must not
+		// change them): ground truth for what the rows have to show
+		src := lines
+		if loadedAlt {
+			src = alt
+		}
+		for _, m := range st.Matches {
+			if k := m.Index + nhl; k < 0 || k >= len(src) || src[k] != m.Text {
+				want := "<none>"
+				if k >= 0 && k < len(src) {
+					want = src[k]
+				}
+				t.Fatalf("after %s the result line #%d is %q, the input line is %q\nhistory:\n  %s", step, m.Index, m.Text, want, strings.Join(history, "\n  "))
+			}
+		}
 		var msg string
 		var rows []string
 		until := time.Now().Add(3 * time.Second)
@@ -451,7 +518,7 @@ func c15Session(t *rapid.T) {
 	acts := []string{"up", "down", "up", "down", "page-up", "page-down", "half-page-down", "first", "last", "toggle", "toggle-down", "toggle-up", "select-all", "deselect-all", "toggle-all", "clear-selection", "pos(3)", "pos(-2)"}
 	for i := 0; i < nsteps; i++ {
 		var body string
-		switch rapid.SampledFrom([]string{"nav", "nav", "nav", "nav", "query", "query", "reload", "edit", "edit"}).Draw(t, "kind") {
+		switch rapid.SampledFrom([]string{"nav", "nav", "nav", "nav", "query", "query", "reload", "edit", "edit", "resize"}).Draw(t, "kind") {
 		case "reload":
 			loadedAlt = !loadedAlt
 			src, cur := origFile, lines
@@ -465,6 +532,13 @@ func c15Session(t *rapid.T) {
 			if nhl > 0 {
 				cfg.headerLines = cur[:nhl]
 			}
+		case "resize":
+			cfg.width = rapid.SampledFrom([]int{24, 30, 40, 61, 90, 130}).Draw(t, "newWidth")
+			cfg.height = rapid.SampledFrom([]int{8, 10, 14, 24}).Draw(t, "newHeight")
+			s.Resize(cfg.width, cfg.height)
+			history = append(history, fmt.Sprintf("resize %dx%d", cfg.width, cfg.height))
+			verify(fmt.Sprintf("resize %dx%d", cfg.width, cfg.height))
+			continue
 		case "edit":
 			// actions that redraw only a part of the screen other than the list
 			body = rapid.SampledFrom([]string{"backward-char", "forward-char", "beginning-of-line", "end-of-line", "backward-word", "forward-word", "change-prompt", "change-header", "backward-char+down", "beginning-of-line+toggle"}).Draw(t, "edit")
@@ -487,7 +561,7 @@ func c15Session(t *rapid.T) {
 			body = strings.Join(parts, "+")
 			partial = true
 		default:
-			body = rapid.SampledFrom([]string{"put(a)", "put(b)", "put(1)", "put(-)", "backward-delete-char", "clear-query", "change-query(item-0)", "change-query(long ab)", "change-query(zzz)", "change-query(med 7)"}).Draw(t, "q")
+			body = rapid.SampledFrom([]string{"put(a)", "put(b)", "put(1)", "put(-)", "backward-delete-char", "clear-query", "change-query(item-0)", "change-query(a1 b2)", "change-query(zzz)", "change-query(med 7)"}).Draw(t, "q")
 		}
 		history = append(history, "POST "+body)
 		if code, err := s.Post(body); err != nil || code != 200 {
